@@ -485,3 +485,47 @@ def check_scalars_verbatim(ctx, rule):
             else:
                 ctx.undecided(rule, inst, 'origin of the value not recognised: %s' % describe(B, c))
     return n
+
+
+# ------------------------------------------------------------------- validity ranges of wire fields ----
+FIELD_RANGES = {
+    # parser base name -> (index of the be_u8/be_u16/... read among the function's number reads, (lo, hi), what it is)
+    'parse_bit_binary': (1, (1, 8), 'Bits of BIT_BINARY_EXT: number of significant bits in the last byte, 1..8 (8 for a whole byte)'),
+    'parse_bit_binary_borrowed': (1, (1, 8), 'Bits of BIT_BINARY_EXT: number of significant bits in the last byte, 1..8 (8 for a whole byte)'),
+}
+
+
+def check_field_ranges(ctx, rule):
+    """Fields the format restricts to a range are accepted for exactly that range: at every successful return of the
+    parser the interval analysis gives the field precisely the format's range (a guard one too tight rejects valid input,
+    one too loose accepts invalid input)."""
+    from .ranges import Ranges
+    P = ctx.P
+    n = 0
+    for name, (k, want, what) in sorted(FIELD_RANGES.items()):
+        B = P.B(DEC + name)
+        if B is None:
+            continue
+        reads = [(bb, t) for bb, t in B.calls() if (callee_of(t)[0] or '').startswith('nom::number::')]
+        if len(reads) <= k:
+            ctx.undecided(rule, name, 'field read not found')
+            continue
+        rbb, rt = reads[k]
+        R = Ranges(B)
+        oks = [bb for bb, j, st in B.stmts() if st['k'] == '=' and st['pl']['l'] == 0 and not st['pl'].get('p') and st['rv']['k'] == 'agg' and st['rv'].get('var') == 'Ok']
+        got = None
+        for ob in oks:
+            for kk, vv in R.facts_at(ob).items():
+                txt = str(kk)
+                if ("', %d)" % rbb) in txt and isinstance(kk, tuple) and kk[0] == 'place' and kk[2] and kk[2][-1] == '1':
+                    got = vv if got is None else (min(got[0], vv[0]), max(got[1], vv[1]))
+        n += 1
+        if got is None:
+            ctx.undecided(rule, name, 'no range established for the field at the successful return')
+        elif got == want:
+            ctx.ok(rule, name, '%s: accepted for exactly [%d, %d]' % (what.split(':')[0], want[0], want[1]), ctx.where(B, rbb))
+        else:
+            ctx.bad(rule, name, '%s. The parser accepts [%s, %s]: %s' % (what, got[0], got[1],
+                    'valid encodings are rejected' if (got[0] > want[0] or got[1] < want[1]) else 'invalid encodings are accepted'), ctx.where(B, rbb),
+                    key='DOM:%s%s:field-range' % (DEC, name))
+    return n
